@@ -280,7 +280,7 @@ def endpoints(repo, run):
     # returned success
     rets = [st for st in fn.body if isinstance(st, ast.If) and "return_interval" in src(st.test)]
     succ = []
-    for st in ast.walk(fn):
+    for st in walk_no_nested(fn):
         if isinstance(st, ast.Return) and isinstance(st.value, ast.Tuple) and len(st.value.elts) >= 2 and not (isinstance(st.value.elts[1], ast.Constant)):
             succ.append(st.value.elts[1])
     for e in succ:
